@@ -13,3 +13,11 @@ func VerifNew(session *packet.Session) *DNSHandler {
 	h.mdnsCache = make(map[string]cache)
 	return h
 }
+
+// VerifEncodeNBNSName / VerifDecodeNBNSName / VerifParseNodeNameArray expose the unexported
+// NetBIOS name codecs to the verification harness. Compiled only with -tags verif.
+func VerifEncodeNBNSName(name string) []byte { return encodeNBNSName(name) }
+
+func VerifDecodeNBNSName(buf []byte) (int, string, error) { return decodeNBNSName(buf) }
+
+func VerifParseNodeNameArray(b []byte) ([]string, error) { return parseNodeNameArray(b) }
